@@ -171,7 +171,8 @@ theorem paused_no_object_writes (cfg : Cfg) (rm : Remotes) (name : String) (s : 
 /-- the pass ends with exactly one status update carrying `finishMem` of the derived status. -/
 theorem finish_event (s : Sys) (m : OSet) (res : Res) :
     ∃ r, (finish s m res).1.setEvents = s.setEvents ++
-      [.statusUpdate (finishMem s.w m).name r (finishMem s.w m).revision (finishMem s.w m).conds (finishMem s.w m).controllerOf] := by
+      [.statusUpdate (finishMem s.w m).name r (finishMem s.w m).revision (finishMem s.w m).conds (finishMem s.w m).controllerOf
+        (finishMem s.w m).remotePhases] := by
   simp only [finish, Pko.Lemmas.ObjectSet.afterStatus_fst]
   exact Pko.Lemmas.ObjectSet.updateStatus_setEvents s (finishMem s.w m)
 
